@@ -664,6 +664,170 @@ fn run(case: &Case, out: &mut Out) {
                     out.viol("h2-lost", &format!("{} bytes out + {queued} queued != body {}", got.len(), body.len()));
                 }
             }
+            "h2convt" => {
+                // h2convt <max> <seed> <nfields> W <w>.. C <n>.. : a chunked HTTP/1.1 response with a trailer section,
+                // parsed by kawa and written by the real H2BlockConverter (verif hook convert_h1_response)
+                let max = a[0].n() as usize;
+                let seed = a[1].n() as u64;
+                let nf = a[2].n() as usize;
+                let mut ws: Vec<i32> = vec![];
+                let mut cs: Vec<usize> = vec![];
+                let mut mode = 0;
+                for t in &a[3..] {
+                    match t {
+                        Tok::S(m) if m == "W" => mode = 1,
+                        Tok::S(m) if m == "C" => mode = 2,
+                        Tok::N(n) if mode == 1 => ws.push(*n as i32),
+                        Tok::N(n) if mode == 2 => cs.push(*n as usize),
+                        _ => {}
+                    }
+                }
+                let chunks: Vec<Vec<u8>> = cs.iter().enumerate().map(|(i, n)| pattern(*n, seed + i as u64)).collect();
+                let body: Vec<u8> = chunks.concat();
+                let fields: Vec<(String, String)> = (0..nf).map(|i| (format!("x-trailer-{i}"), format!("v{}-{seed}", i * 7))).collect();
+                let mut resp = b"HTTP/1.1 200 OK\r\nTransfer-Encoding: chunked\r\nContent-Type: application/octet-stream\r\n\r\n".to_vec();
+                for c in &chunks {
+                    if c.is_empty() {
+                        out.note("invalid-case: empty chunk");
+                    }
+                    resp.extend_from_slice(format!("{:x}\r\n", c.len()).as_bytes());
+                    resp.extend_from_slice(c);
+                    resp.extend_from_slice(b"\r\n");
+                }
+                resp.extend_from_slice(b"0\r\n");
+                for (k, v) in &fields {
+                    resp.extend_from_slice(format!("{k}: {v}\r\n").as_bytes());
+                }
+                resp.extend_from_slice(b"\r\n");
+                let (rounds, left) = match sozu_lib::protocol::mux::verif_c01::convert_h1_response(&ws, max, 5, &resp) {
+                    Ok(x) => x,
+                    Err(e) => {
+                        out.viol("h2t-parse", &format!("kawa did not parse the generated chunked response with {nf} trailer fields: {e}"));
+                        out.obs(&[]);
+                        continue;
+                    }
+                };
+                let mut dec = loona_hpack::Decoder::new();
+                let mut toks = vec![];
+                let mut got: Vec<u8> = vec![];
+                let (mut head_seen, mut end_seen) = (false, false);
+                let mut trailers: Vec<(Vec<u8>, Vec<u8>)> = vec![];
+                let (mut block, mut block_open, mut block_end_stream): (Vec<u8>, bool, bool) = (vec![], false, false);
+                for (ri, (bytes, after)) in rounds.iter().enumerate() {
+                    toks.push(ts("R"));
+                    toks.push(tn(*after));
+                    let before = ws[ri];
+                    let (mut i, mut sent) = (0usize, 0usize);
+                    while i + 9 <= bytes.len() {
+                        let len = ((bytes[i] as usize) << 16) | ((bytes[i + 1] as usize) << 8) | bytes[i + 2] as usize;
+                        let (ty, flags) = (bytes[i + 3], bytes[i + 4]);
+                        let sid = u32::from_be_bytes([bytes[i + 5], bytes[i + 6], bytes[i + 7], bytes[i + 8]]);
+                        if i + 9 + len > bytes.len() || sid != 5 {
+                            out.viol("h2-frame", &format!("round {ri}: frame type {ty} of {len} bytes on stream {sid}, {} bytes follow", bytes.len() - i - 9));
+                            break;
+                        }
+                        if end_seen && !(ty == 9 && block_open) {
+                            out.viol("h2-after-end", &format!("round {ri}: a frame (type {ty}) follows END_STREAM"));
+                        }
+                        let payload = &bytes[i + 9..i + 9 + len];
+                        match ty {
+                            1 | 9 => {
+                                // a header block: HEADERS, then CONTINUATION frames up to END_HEADERS (small max_frame_size)
+                                if ty == 1 {
+                                    if block_open {
+                                        out.viol("h2-frame", "HEADERS inside an unfinished header block");
+                                    }
+                                    block.clear();
+                                    block_open = true;
+                                    block_end_stream = flags & 1 != 0;
+                                } else if !block_open {
+                                    out.viol("h2-frame", "CONTINUATION without a header block");
+                                }
+                                block.extend_from_slice(payload);
+                                if flags & 4 != 0 {
+                                    block_open = false;
+                                    let mut fl: Vec<(Vec<u8>, Vec<u8>)> = vec![];
+                                    if dec.decode_with_cb(&block, |k, v| fl.push((k.to_vec(), v.to_vec()))).is_err() {
+                                        out.viol("h2t-hpack", "header block does not decode");
+                                    }
+                                    if !head_seen {
+                                        head_seen = true;
+                                        toks.push(ts("H"));
+                                        if block_end_stream {
+                                            out.viol("h2-early-end", "END_STREAM on the response HEADERS of a message with a body");
+                                            end_seen = true;
+                                        }
+                                    } else {
+                                        trailers = fl;
+                                        if block_end_stream {
+                                            end_seen = true;
+                                            toks.push(ts("T"));
+                                        } else {
+                                            toks.push(ts("t"));
+                                            out.viol("h2t-no-end", "the HEADERS frame carrying the trailers has no END_STREAM: the stream never ends");
+                                        }
+                                    }
+                                }
+                            }
+                            0 => {
+                                if !head_seen {
+                                    out.viol("h2-frame", "DATA before the response HEADERS");
+                                }
+                                if len > max {
+                                    out.viol("h2-frame-size", &format!("round {ri}: DATA payload {len} above max_frame_size {max}"));
+                                }
+                                got.extend_from_slice(payload);
+                                sent += len;
+                                if flags & 1 != 0 {
+                                    end_seen = true;
+                                    toks.push(ts("E"));
+                                    if len != 0 {
+                                        toks.push(tn(len));
+                                    }
+                                } else {
+                                    toks.push(tn(len));
+                                }
+                            }
+                            _ => out.viol("h2-frame", &format!("round {ri}: frame type {ty} in a response")),
+                        }
+                        i += 9 + len;
+                    }
+                    if i != bytes.len() {
+                        out.viol("h2-frame", &format!("round {ri}: {} trailing bytes are not a frame", bytes.len() - i));
+                    }
+                    if before >= 0 && sent as i64 > before as i64 {
+                        out.viol("h2-window", &format!("round {ri}: {sent} bytes sent with a window of {before}"));
+                    }
+                    if *after as i64 != before as i64 - sent as i64 {
+                        out.viol("h2-window", &format!("round {ri}: window {before} -> {after} after {sent} bytes"));
+                    }
+                }
+                toks.push(ts("L"));
+                for l in left.iter().filter(|l| **l != usize::MAX) {
+                    toks.push(tn(*l));
+                }
+                if left.iter().any(|l| *l == usize::MAX) {
+                    toks.push(ts("E"));
+                }
+                out.obs(&toks);
+                // the property's own oracle
+                if got.len() > body.len() || got[..] != body[..got.len()] {
+                    out.viol("h2-corrupt", "DATA payloads are not a prefix of the body");
+                }
+                if end_seen && got.len() != body.len() {
+                    out.viol("h2-early-end", &format!("END_STREAM with {} of {} body bytes out", got.len(), body.len()));
+                }
+                if end_seen {
+                    let want: Vec<(Vec<u8>, Vec<u8>)> = fields.iter().map(|(k, v)| (k.clone().into_bytes(), v.clone().into_bytes())).collect();
+                    if trailers != want {
+                        out.viol("h2t-fields", &format!("trailer fields out {:?}, in {:?}", trailers.iter().map(|(k, v)| (String::from_utf8_lossy(k).to_string(), String::from_utf8_lossy(v).to_string())).collect::<Vec<_>>(), fields));
+                    }
+                }
+                let queued: usize = left.iter().filter(|l| **l != usize::MAX).sum();
+                if got.len() + queued != body.len() {
+                    out.viol("h2-lost", &format!("{} bytes out + {queued} queued != body {}", got.len(), body.len()));
+                }
+            }
             other => {
                 out.note(&format!("invalid-case: unknown op {other}"));
                 out.obs(&[]);
